@@ -102,8 +102,13 @@ func blsTranscript(r *rand.Rand, n int) {
 		emit("bls_threshold_reconstruct", seed, rec)
 	}
 	blsEdgeTranscript(r)
-	// one seeded Joint-Feldman run, synchronous delivery
-	const dn, dt = 3, 1
+	blsExtras(r)
+	// seeded Joint-Feldman runs, synchronous delivery
+	dkgRun(r, 3, 1)
+	dkgRun(r, 6, 2)
+}
+
+func dkgRun(r *rand.Rand, dn, dt int) {
 	var logs []string
 	net := &network{}
 	var inst []crypto.DKGState
@@ -256,3 +261,113 @@ func (f *fixedHasher) ComputeHash([]byte) hash.Hash      { return append([]byte{
 func (f *fixedHasher) Write(b []byte) (int, error)       { return len(b), nil }
 func (f *fixedHasher) SumHash() hash.Hash                { return append([]byte{}, f.o...) }
 func (f *fixedHasher) Reset()                            {}
+
+// blsExtras: entry points of the C glue the main loop does not reach: key removal (E2 subtraction) incl.
+// removing everything, identity key and signature, aggregate verification over DISTINCT messages with
+// hashers that differ per index and repeated keys, SPoCK against data, compressed-key round trip, and
+// threshold reconstruction from more than 8 signers with high indices (Lagrange coefficients in Fr).
+func blsExtras(r *rand.Rand) {
+	res := func(v []byte, err error) string {
+		if err != nil {
+			return "error: " + err.Error()
+		}
+		return hex.EncodeToString(v)
+	}
+	h1, h2 := crypto.NewExpandMsgXOFKMAC128("extras-1"), crypto.NewExpandMsgXOFKMAC128("extras-2")
+	id := rb(r, 8)
+	var sks []crypto.PrivateKey
+	var pks []crypto.PublicKey
+	for j := 0; j < 5; j++ {
+		k, _ := crypto.GeneratePrivateKey(crypto.BLSBLS12381, rb(r, 32))
+		sks, pks = append(sks, k), append(pks, k.PublicKey())
+	}
+	agg, _ := crypto.AggregateBLSPublicKeys(pks)
+	for cut := 0; cut <= len(pks); cut++ {
+		rem, err := crypto.RemoveBLSPublicKeys(agg, pks[:cut])
+		if err != nil {
+			emits("bls_remove", append([]byte{byte(cut)}, id...), "error: "+err.Error())
+			continue
+		}
+		rest, err2 := crypto.AggregateBLSPublicKeys(pks[cut:])
+		same := err2 == nil && rem.Equals(rest)
+		emits("bls_remove", append([]byte{byte(cut)}, id...), hex.EncodeToString(rem.Encode())+fmt.Sprint(" ", same, rem.Equals(crypto.IdentityBLSPublicKey())))
+	}
+	idk := crypto.IdentityBLSPublicKey()
+	idsig := append([]byte{0xc0}, make([]byte, 47)...)
+	emit("bls_identity_pk", id, idk.Encode())
+	okA, errA := idk.Verify(idsig, []byte("m"), h1)
+	okB, errB := pks[0].Verify(idsig, []byte("m"), h1)
+	okC, errC := crypto.BLSVerifyPOP(idk, idsig)
+	emits("bls_identity_verify", id, fmt.Sprint(okA, errA, okB, errB, okC, errC, crypto.IsBLSSignatureIdentity(idsig), crypto.IsBLSSignatureIdentity(crypto.BLSInvalidSignature())))
+	dbl, err := crypto.AggregateBLSPublicKeys([]crypto.PublicKey{pks[0], pks[0], idk})
+	if err == nil {
+		emit("bls_agg_pk_double", id, dbl.Encode())
+	}
+	// distinct messages, per-index hashers, repeated keys and repeated messages
+	var mpks []crypto.PublicKey
+	var msgs [][]byte
+	var hss []hash.Hasher
+	var sigs []crypto.Signature
+	base := [][]byte{rb(r, 0), rb(r, 1), rb(r, 40), rb(r, 200)}
+	for j := 0; j < 9; j++ {
+		k := j % 3
+		m := base[(j*7/2)%len(base)]
+		hh := h1
+		if j%4 == 1 {
+			hh = h2
+		}
+		sg, _ := sks[k].Sign(m, hh)
+		mpks, msgs, hss, sigs = append(mpks, pks[k]), append(msgs, m), append(hss, hh), append(sigs, sg)
+	}
+	asg, _ := crypto.AggregateBLSSignatures(sigs)
+	emit("bls_many_agg_sig", id, asg)
+	v1, e1 := crypto.VerifyBLSSignatureManyMessages(mpks, asg, msgs, hss)
+	hss[1], hss[0] = hss[0], hss[1]
+	v2, e2 := crypto.VerifyBLSSignatureManyMessages(mpks, asg, msgs, hss)
+	v3, e3 := crypto.VerifyBLSSignatureManyMessages(mpks[:8], asg, msgs[:8], hss[:8])
+	emits("bls_many_verify", id, fmt.Sprint(v1, e1, v2, e2, v3, e3))
+	// SPoCK against data, compressed keys
+	pr, _ := crypto.SPOCKProve(sks[0], base[2], h1)
+	s1, e1 := crypto.SPOCKVerifyAgainstData(pks[0], pr, base[2], h1)
+	s2, e2 := crypto.SPOCKVerifyAgainstData(pks[1], pr, base[2], h1)
+	s3, e3 := crypto.SPOCKVerifyAgainstData(pks[0], pr, base[3], h1)
+	emits("bls_spock_data", pr, fmt.Sprint(s1, e1, s2, e2, s3, e3))
+	pc := pks[0].EncodeCompressed()
+	emit("bls_pk_compressed", id, pc)
+	if p2, err := crypto.DecodePublicKeyCompressed(crypto.BLSBLS12381, pc); err == nil {
+		emit("bls_pk_compressed_roundtrip", id, p2.Encode())
+	} else {
+		emits("bls_pk_compressed_roundtrip", id, "error: "+err.Error())
+	}
+	// threshold signature with many participants: signers are the HIGHEST indices, more than 8 of them
+	for _, nt := range [][2]int{{20, 9}, {64, 13}, {254, 20}} {
+		tn, tt := nt[0], nt[1]
+		seed := rb(r, 32)
+		tsk, tpk, gpk, err := crypto.BLSThresholdKeyGen(tn, tt, seed)
+		if err != nil {
+			panic(err)
+		}
+		m := rb(r, 33)
+		var sh []crypto.Signature
+		var idx []int
+		for j := tn - 1; j >= tn-1-tt; j-- {
+			sj, _ := tsk[j].Sign(m, h1)
+			sh, idx = append(sh, sj), append(idx, j)
+		}
+		rec, err := crypto.BLSReconstructThresholdSignature(tn, tt, sh, idx)
+		emits("bls_threshold_big", seed, res(rec, err))
+		ok, _ := gpk.Verify(rec, m, h1)
+		emits("bls_threshold_big_verify", seed, fmt.Sprint(ok, hex.EncodeToString(tpk[tn-1].Encode()[:8]), hex.EncodeToString(tsk[0].Encode())))
+		// the stateful API on the same shares
+		ts, err := crypto.NewBLSThresholdSignatureInspector(gpk, tpk, tt, m, "extras-1")
+		if err != nil {
+			emits("bls_threshold_stateful", seed, "error: "+err.Error())
+			continue
+		}
+		for k := range sh {
+			_, _ = ts.TrustedAdd(idx[k], sh[k])
+		}
+		tsig, err := ts.ThresholdSignature()
+		emits("bls_threshold_stateful", seed, res(tsig, err))
+	}
+}
